@@ -1276,6 +1276,21 @@ func (o *Origins) load(u *ssa.UnOp) *Ex {
 					continue
 				}
 				aroot, apath := addrRoot(o.call.Common().Args[i])
+				if len(apath) == 0 && !o.writesPath(r, path) {
+					// the pointer was handed back by another new helper (`conds, err := readConds(..); conds.check(x)`)
+					if content := o.caller.helperReturnedContent(aroot); content != nil {
+						for _, pe := range path {
+							if pe.field == "" {
+								content = nil
+								break
+							}
+							content = project(content, pe.field)
+						}
+						if content != nil {
+							return content
+						}
+					}
+				}
 				al, isLocal := aroot.(*ssa.Alloc)
 				if !isLocal || al.Parent() != o.caller.Fn || o.writesPath(r, path) {
 					break
@@ -2164,6 +2179,11 @@ func (o *Origins) ContentAt(ptr ssa.Value, at ssa.Instruction) *Ex {
 	case *ssa.FreeVar:
 		return o.reaching(r, path, at, at.Block(), instrIndex(at))
 	}
+	if len(path) == 0 {
+		if e := o.helperReturnedContent(ptr); e != nil {
+			return e
+		}
+	}
 	return o.pointee(ptr)
 }
 
@@ -2364,4 +2384,46 @@ func closureStoresTo(mc *ssa.MakeClosure, bnd ssa.Value) bool {
 		}
 	}
 	return false
+}
+
+// helperReturnedContent: ptr is a pointer handed back by a helper that is new on this tree (`return &T{...}, nil`);
+// the content is what the helper's variable holds at its success returns, read in the helper's calling context.
+// nil when ptr is not of that kind.
+func (o *Origins) helperReturnedContent(ptr ssa.Value) *Ex {
+	if o.depth >= 4 {
+		return nil
+	}
+	var call *ssa.Call
+	idx := 0
+	switch x := ptr.(type) {
+	case *ssa.Call:
+		call = x
+	case *ssa.Extract:
+		call, _ = x.Tuple.(*ssa.Call)
+		idx = x.Index
+	}
+	if call == nil {
+		return nil
+	}
+	h := call.Call.StaticCallee()
+	if h == nil || h.Blocks == nil || h.Parent() != nil || !o.p.IsNewFunc(h) {
+		return nil
+	}
+	oh := o.Enter(h, call)
+	var alts []*Ex
+	for _, r := range oh.SuccessReturns() {
+		if idx >= len(r.Results) {
+			return nil
+		}
+		root2, p2 := addrRoot(r.Results[idx])
+		al, ok := root2.(*ssa.Alloc)
+		if !ok || len(p2) != 0 {
+			return nil
+		}
+		alts = append(alts, oh.reaching(al, nil, r, r.Block(), instrIndex(r)))
+	}
+	if len(alts) == 0 {
+		return nil
+	}
+	return mkPhi(alts)
 }
